@@ -191,6 +191,18 @@ func c15ResolveStability(c *mon.Ctx) {
 			}
 			resolve(line(100+j, ids))
 			c.Add("unrelated_ids_resolved", 9)
+			if j%50 == 0 {
+				// events that carry NAMES (resolved to ids the other way round): the canonical name of an injected
+				// account, root, an unknown name and - last, so that nothing resolved after it covers its traces - the alias
+				for _, acct := range []string{"verif-u", "root", "alice", "nosuchaccount", "verif-alias"} {
+					for _, typ := range []string{"USER_LOGIN", "USER_START", "USER_AUTH", "USER_ACCT", "CRED_ACQ", "USER_END", "ADD_USER", "DEL_USER", "USER_CHAUTHTOK"} {
+						resolve(fmt.Sprintf("type=%s msg=audit(1500000000.300:%d): pid=1 uid=0 auid=1001 ses=11 msg='op=PAM:session_open acct=\"%s\" exe=\"/usr/sbin/sshd\" hostname=h addr=192.0.2.7 terminal=ssh res=success'", typ, 7000+j, acct))
+						c.Add("events_with_account_names_resolved", 1)
+					}
+					resolve(fmt.Sprintf("type=ADD_GROUP msg=audit(1500000000.300:%d): pid=1 uid=0 auid=0 ses=1 msg='op=add-group acct=\"%s\" grp=\"verif-galias\" exe=\"/usr/sbin/groupadd\" hostname=h addr=? terminal=pts/0 res=success'", 8000+j, acct))
+					c.Add("events_with_account_names_resolved", 2)
+				}
+			}
 		}
 		for i, a := range anchors {
 			c.Add("anchor_events_re_resolved", 1)
@@ -207,8 +219,10 @@ var hardcodeOnce sync.Once
 func hardcode() {
 	hardcodeOnce.Do(func() {
 		// deterministic names: ids handed out by the generators resolve the same way on every machine
-		aucoalesce.HardcodeUsers(user.User{Uid: "1000", Username: "alice"}, user.User{Uid: "38", Username: "ntp"}, user.User{Uid: "100014", Username: "verif-u"})
-		aucoalesce.HardcodeGroups(user.Group{Gid: "1000", Name: "alice"}, user.Group{Gid: "38", Name: "ntp"}, user.Group{Gid: "100021", Name: "verif-g"})
+		// two names may share an id (alias accounts): the alias is injected first, the canonical name last, so the
+		// id resolves to the canonical name and both names resolve to the id
+		aucoalesce.HardcodeUsers(user.User{Uid: "100014", Username: "verif-alias"}, user.User{Uid: "1000", Username: "alice"}, user.User{Uid: "38", Username: "ntp"}, user.User{Uid: "100014", Username: "verif-u"})
+		aucoalesce.HardcodeGroups(user.Group{Gid: "100021", Name: "verif-galias"}, user.Group{Gid: "1000", Name: "alice"}, user.Group{Gid: "38", Name: "ntp"}, user.Group{Gid: "100021", Name: "verif-g"})
 	})
 }
 
